@@ -194,6 +194,16 @@ def run(prop, tier, seed):
     for _ in range(200 if not thorough else 5000):
         tags.append(bytes(rng.randrange(256) for _ in range(4)))
         tags.append(bytes(rng.choice(b"+-VviI0123456789JYDgEnBkTrxWHe") for _ in range(4)))
+    for k in KnownAiScript:
+        v = int.from_bytes(k.value.name.encode("latin1"), "little")
+        try:
+            got = AT.decode(v)
+            if got.name != k.value.name or type(got).__name__ == "UnknownAiScript":
+                out.violations.append({"oracle": "ai: the little-endian number of a known script's 4-character tag decodes to that script", "member": k.name, "tag": k.value.name, "decoded": got.name})
+            if AT.encode(k.value) != v:
+                out.violations.append({"oracle": "ai: a known script encodes to the little-endian number of its tag", "member": k.name, "tag": k.value.name, "got": AT.encode(k.value), "expected": v})
+        except Exception as ex:  # noqa: BLE001
+            out.violations.append({"oracle": "ai: known script tags decode", "member": k.name, "err": err_class(ex)})
     for t in tags:
         v = struct.unpack("<I", t)[0]
         try:
